@@ -327,6 +327,11 @@ def static_type(V, ast, pkg, key):
         return e['elem']
     if k == 'call' and ast[1] in ('old',):
         return static_type(V, ast[2][0], pkg, key)
+    if k == 'un' and ast[1] == '*':
+        bt = static_type(V, ast[2], pkg, key)
+        e = prog.under(bt)[1]
+        if e.get('kind') == 'ptr':
+            return e['elem']
     raise OutOfSubset('static type of %r' % (ast,))
 
 
